@@ -77,7 +77,10 @@ def durations_us(max_us=30 * DAY_US, negative=False):
     return base
 
 
-_TEXT_SPECIALS = ['"', "'", "\\", "\x00", "\n", "\t", "é", "ß", "日本", "😀", " ", "{", "}", "[", "]", ",", ":", " ", "%", "?", "퟿", "￿", "\U0010ffff"]
+_TEXT_SPECIALS = ['"', "'", "\\", "\x00", "\n", "\t", "é", "ß", "日本", "😀", " ", "{", "}", "[", "]", ",", ":", " ", "%", "?", "퟿", "￿", "\U0010ffff",
+                  # not in Unicode composed form (a store that normalises text would change them): e + combining acute,
+                  # ANGSTROM SIGN, OHM SIGN, = + combining solidus, Hangul jamo, fi ligature; and the line separators U+2028 / U+0085
+                  "e\u0301", "\u212b", "\u2126", "=\u0338", "\u1100\u1161", "\ufb01", "\u2028", "\x85"]
 
 
 def texts(max_size=8):
